@@ -662,6 +662,7 @@ func runSrv(ts []string) string {
 			}
 			shutdownRet = make(chan error, 1)
 			shutdownStarted = true
+			shutdownResult = ""
 			go func() {
 				sctx, scancel := context.WithTimeout(context.Background(), d)
 				defer scancel()
@@ -747,6 +748,16 @@ func runSrv(ts []string) string {
 			if !settle() {
 				o += "-stuck"
 			}
+		case "g":
+			// the first 7 bytes of a request and nothing more (a client that gives up or pauses in the middle of a frame)
+			c := clients[k]
+			if c == nil {
+				o = "nc"
+				break
+			}
+			_, _ = c.conn.Write(fc3Frame(id, 1)[:7])
+			time.Sleep(3 * time.Millisecond) // let the server read the fragment (detection power only)
+			o = "ok"
 		case "b":
 			// a request whose (padded) reply does not fit into the socket buffers: the server blocks in Write
 			c := clients[k]
